@@ -12,6 +12,7 @@ import (
 	"reflect"
 	"sort"
 	"strings"
+	"unicode"
 
 	"github.com/go-openapi/strfmt"
 	"github.com/go-openapi/validate"
@@ -29,8 +30,25 @@ func bytesOf(s string) []interface{} {
 	return out
 }
 
+// foldKey is a canonical representative of s under Unicode simple case folding (the relation of strings.EqualFold):
+// every rune is replaced by the smallest rune of its folding orbit (K, k and the Kelvin sign; S, s and the long s; the
+// three sigmas ...). Lower-casing is NOT such a key: ToLower keeps the final sigma and the long s apart.
+func foldKey(s string) string {
+	var b strings.Builder
+	for _, r := range s {
+		m := r
+		for f := unicode.SimpleFold(r); f != r; f = unicode.SimpleFold(f) {
+			if f < m {
+				m = f
+			}
+		}
+		b.WriteRune(m)
+	}
+	return b.String()
+}
+
 func goStr(s string) enc.M {
-	return enc.M{"k": "string", "b": bytesOf(s), "low": bytesOf(strings.ToLower(s)), "x": enc.Pct(s)}
+	return enc.M{"k": "string", "b": bytesOf(s), "low": bytesOf(foldKey(s)), "x": enc.Pct(s)}
 }
 
 // goValue encodes a typed Go value for Helpers.tla.
@@ -316,8 +334,9 @@ func driveHelpers(args []string) error {
 		}
 	}
 	// EnumCase with named string types on either side (kind string: the comparison is the one of plain strings)
-	for _, d := range []interface{}{namedStr("Ab"), namedStr("ab"), "AB", "ab", namedStr("")} {
-		for _, enumList := range [][]interface{}{{namedStr("ab")}, {"ab"}, {namedStr("AB"), "x"}, {"x", namedStr("aB")}, {namedStr("")}} {
+	for _, d := range []interface{}{namedStr("Ab"), namedStr("ab"), "AB", "ab", namedStr(""), "ΟΔΟΣ", "οδος", "οδοσ", "ſecret", "SECRET", "Kelvin", "kelvin"} {
+		for _, enumList := range [][]interface{}{{namedStr("ab")}, {"ab"}, {namedStr("AB"), "x"}, {"x", namedStr("aB")}, {namedStr("")},
+			{"οδος"}, {"ΟΔΟΣ", "x"}, {"secret"}, {"Secret", "ſECRET"}, {"KELVIN"}, {"x", "KELVIN"}} {
 			d, enumList := d, enumList
 			encList := make([]interface{}, len(enumList))
 			for q := range enumList {
@@ -368,6 +387,29 @@ func driveHelpers(args []string) error {
 					func() bool { return validate.FormatOf("p", "q", name, s, reg) != nil }, func() string { return name + s })
 			}
 		}
+	}
+	// the answer follows the registry that is GIVEN, at the time of the call: a name unknown to one registry and known to another,
+	// and a name added to a registry after it was first asked for
+	{
+		isEven := func(s string) bool { return len(s) > 0 && (s[len(s)-1]-'0')%2 == 0 }
+		regA, regB := strfmt.NewFormats(), strfmt.NewFormats()
+		regB.Add("evenfmt", new(strfmt.Date), isEven)
+		step := 0
+		ask := func(label string, reg strfmt.Registry, name, s string) {
+			step++
+			known := reg.ContainsName(name)
+			accepts := known && reg.Validates(name, s)
+			emit("FormatOf", enc.M{"known": known, "accepts": accepts}, enc.M{"format": name, "string": s, "registry": label, "step": step},
+				func() bool { return validate.FormatOf("p", "q", name, s, reg) != nil }, func() string { return fmt.Sprint(step, label, name, s) })
+		}
+		ask("A (does not know evenfmt)", regA, "evenfmt", "12")
+		ask("B (knows evenfmt)", regB, "evenfmt", "12")
+		ask("B (knows evenfmt)", regB, "evenfmt", "13")
+		ask("A (does not know laterfmt yet)", regA, "laterfmt", "12")
+		regA.Add("laterfmt", new(strfmt.Date), isEven)
+		ask("A after Add(laterfmt)", regA, "laterfmt", "12")
+		ask("A after Add(laterfmt)", regA, "laterfmt", "13")
+		ask("B (does not know laterfmt)", regB, "laterfmt", "12")
 	}
 	w.close()
 	return writeJSONFile(filepath.Join(*out, "meta.json"), map[string]interface{}{"events": w.n, "distinct_nontrivial": len(distinct), "samples": samples})
